@@ -272,10 +272,17 @@ def run_case(case, obs=None):
         if what == "valid":
             pass
         elif what == "target_key":
-            tgt[arg] = 1
+            # (an unknown key is refused whatever it is set to: 1, or arg = [key, value] with None / 0 / "" / [] / False)
+            if isinstance(arg, list):
+                tgt[arg[0]] = arg[1]
+            else:
+                tgt[arg] = 1
             expect = ["ValueError"]
         elif what == "segment_key":
-            seg[arg] = 1
+            if isinstance(arg, list):
+                seg[arg[0]] = arg[1]
+            else:
+                seg[arg] = 1
             expect = ["ValueError"]
         elif what == "target_code":
             tgt["descriptor_type_code"] = arg
@@ -478,8 +485,12 @@ def run_partition(part, tier, seed):
             do(["xcopy", ver, tr, "valid", None], nontrivial=False)
             for k in ("bogus", "nul", "descriptor_length", "cat", "target_descriptor_parameter", "Descriptor_type_code", ""):
                 do(["xcopy", ver, tr, "target_key", k])
+                for val in (None, 0, "", [], False):
+                    do(["xcopy", ver, tr, "target_key", [k, val]])
             for k in ("bogus", "fco" if ver == 4 else "swap", "stream_device_transfer_length", "block_device_logical_block_address", "pad", ""):
                 do(["xcopy", ver, tr, "segment_key", k])
+                for val in (None, 0, "", [], False):
+                    do(["xcopy", ver, tr, "segment_key", [k, val]])
             for code in range(256):
                 do(["xcopy", ver, tr, "target_code", code], nontrivial=code != 0xE4)
                 do(["xcopy", ver, tr, "segment_code", code], nontrivial=code not in (0x02, 0x0D))
